@@ -36,6 +36,8 @@ type RunCtx struct {
 	// Inconclusive reasons (never violations).
 	Inconclusive []string
 	Param        map[string]string
+	// Muted drops functional violations (C19 borrows other properties' run shapes).
+	Muted bool
 	// Prom carries the real Prometheus collector of the run to the Post hook.
 	Prom any
 	// PostData carries whatever the scenario wants to evaluate after the run.
@@ -44,6 +46,9 @@ type RunCtx struct {
 
 // Failf records a violation.
 func (rc *RunCtx) Failf(sig string, format string, a ...any) {
+	if rc.Muted && !strings.Contains(sig, "linearizable") {
+		return
+	}
 	for _, v := range rc.Viols {
 		if v.Sig == sig {
 			return
